@@ -12,6 +12,7 @@ Require Import SR.Gen.Cp037 SR.Gen.RecfmParams.
 Require Import SR.Model.HeaderRow SR.Model.Workbook.
 Require SR.Model.Recfm SR.Model.Estruct SR.Model.Registry.
 Require Import SR.Proofs.HeaderRowP SR.Proofs.RecfmP SR.Proofs.EstructP.
+Require Export SR.Spec.WorkbookWf.   (* wf_table, wf_workbook, splits_back_all, wf_numbers, bad_doc: statement-level definitions (G1) *)
 Open Scope nat_scope.
 
 (* ================================================================ the glue of implementations.py, in closed form
@@ -162,8 +163,6 @@ Proof.
 Qed.
 
 (* ================================================================ Part A: header-row formats *)
-Definition wf_table (T : table) : Prop := NoDup (t_header T) /\ rect T = true.
-Definition wf_workbook (W : workbook) : Prop := NoDup (map fst W) /\ Forall (fun s => wf_table (snd s)) W.
 
 Lemma str_of_phys_row r : map str_of (phys_row r) = r.
 Proof. unfold phys_row. rewrite map_map. cbn. apply map_id. Qed.
@@ -243,13 +242,6 @@ Proof.
 Qed.
 
 (* every stored (sheet, table) name pair is found again by partition *)
-Definition splits_back_all (d : numbers_doc) : Prop :=
-  forall s t, In s d -> In t (snd s) -> partition_sep (composite (fst s) (fst t)) = (fst s, fst t).
-
-Definition wf_numbers (d : numbers_doc) : Prop :=
-  NoDup (map fst d)
-  /\ Forall (fun s => NoDup (map fst (snd s)) /\ Forall (fun t => wf_table (snd t)) (snd s)) d
-  /\ splits_back_all d.
 
 Lemma numbers_ok (d : numbers_doc) : wf_numbers d ->
   read_header (phys_numbers d) (headers (flatten_numbers d)) = expected (flatten_numbers d).
@@ -893,8 +885,6 @@ Proof.
 Qed.
 
 (* ---- the known finding: a Numbers sheet name containing the separator ---- *)
-Definition bad_doc : numbers_doc :=
-  [([97; 58; 58; 98]%N, [([84]%N, mk_table [[104]%N] [[[118]%N]])])].
 
 Lemma numbers_refuted :
   NoDup (map fst bad_doc)
